@@ -59,6 +59,28 @@ fn engine_sh() {
                     writeln!(out, "ok {}{}", hex(cl.as_bytes()), alt_form(&format!("{:#?}", e), "Exec", &cl)).unwrap();
                 }
             }
+            // `sha <k> <arg>+`: the command is printed while it is being built (after the first k words), then extended with
+            // `args(..)` (and, for odd k, cloned first), then printed again: the text must describe the command as it is NOW
+            "sha" if toks.len() >= 3 => {
+                let k: usize = toks[1].parse().unwrap_or(1).max(1);
+                let argv: Vec<Vec<u8>> = toks[2..].iter().map(|t| unhex(t)).collect();
+                let k = k.min(argv.len());
+                let mut e = mk_exec(&argv[..k]);
+                let _ = e.to_cmdline_lossy();
+                let _ = format!("{:?} {:#?}", e, e);
+                if k % 2 == 1 {
+                    e = e.clone();
+                }
+                let rest: Vec<String> = argv[k..].iter().map(|a| s(a)).collect();
+                e = e.args(&rest);
+                let cl = e.to_cmdline_lossy();
+                let dbg = format!("{:?}", e);
+                if dbg != format!("Exec {{ {} }}", cl) {
+                    writeln!(out, "debug-mismatch {}", hex(dbg.as_bytes())).unwrap();
+                } else {
+                    writeln!(out, "ok {}{}", hex(cl.as_bytes()), alt_form(&format!("{:#?}", e), "Exec", &cl)).unwrap();
+                }
+            }
             // `she <name>:<value>[,<name>:<value>]* <arg>+`: the same command with environment overrides (`Exec::env`): they are
             // printed in front of the command as assignments
             "she" if toks.len() >= 3 => {
